@@ -19,6 +19,7 @@
 From Coq Require Import ZArith List Bool QArith Qabs.
 From PAV Require Import Base.Res Base.Check Base.NumOps Base.Sum.
 From PAV Require Export Model.C06.
+From PAV Require Model.C18.      (* the border-relocation model and its specification (C18's subject), used qualified *)
 Import ListNotations.
 Local Open Scope Z_scope.
 
@@ -277,7 +278,100 @@ Inductive case :=
             (adapt : qv) (steps : list (hop Q * hobs Q))
 | KHistDel (tol vtol : Q) (m : mask) (subs : list nat) (grid points : list qpt)
            (simplices : list (list Z)) (simplex_for indptr indices : list Z)     (* oracle outputs *)
-           (adapt : qv) (steps : list (hop Q * hobs Q)).
+           (adapt : qv) (steps : list (hop Q * hobs Q))
+  (* a mapper built through the MESH API: aa.mesh.Rectangular(shape) / aa.mesh.Delaunay() .mapper_grids_from(mask,
+     source_plane_data_grid = orig, source_plane_mesh_grid = origV, border_relocator = BorderRelocator(fst rel, snd rel),
+     preloads = Preloads(relocated_grid = preload)) followed by aa.Mapper.  [k] is the KRect / KDel case of the resulting
+     mapper whose [grid] (and, Delaunay, [points]) are the arrays the MapperGrids object HOLDS (its source_plane_data_grid /
+     source_plane_mesh_grid as the implementation returned them); [sbs] = the relocator's sub_border_slim (as in C18) *)
+| KMeshApi (rel : option (mask * list nat)) (sbs : list nat) (preload : option (list qpt)) (orig origV : list qpt)
+           (k : C06.case).
+
+(* ---------------- mesh/abstract.py relocated_grid_from + rectangular.py / triangulation.py mapper_grids_from ----------------
+   data' = preloads.relocated_grid                       if it is not None            (the relocator is NOT consulted)
+         = border_relocator.relocated_grid_from(data)    if a relocator is passed
+         = data                                          otherwise;
+   Rectangular: the mesh is Mesh2DRectangular.overlay_grid(shape, data') and the MapperGrids holds data';
+   Delaunay:    mesh' = border_relocator.relocated_mesh_grid_from(grid = data', mesh) (mesh if no relocator), the
+                triangulation is built on mesh' and the MapperGrids holds (data', mesh').
+   The relocation itself is C18's model (Model/C18.v); what the mapper then does with (data', mesh') is Model/C06.v. *)
+Section MeshApi.
+  Context {O : NumOps}.
+  Definition held_data (rel : option (mask * list nat)) (preload : option (list (T O * T O))) (data : list (T O * T O))
+    : res (list (T O * T O)) :=
+    match preload, rel with
+    | Some p, _ => Ok p
+    | None, Some (m, ss) => @C18.relocated_grid_from O m ss data
+    | None, None => Ok data
+    end.
+  Definition held_mesh (rel : option (mask * list nat)) (data' mesh : list (T O * T O)) : res (list (T O * T O)) :=
+    match rel with
+    | Some (m, ss) => @C18.relocated_mesh_grid_from O m ss data' mesh
+    | None => Ok mesh
+    end.
+  (* the rectangular mapper of the mesh API: the grid it holds, its mesh, its pix_sub_weights *)
+  Definition rect_mesh_api (rel : option (mask * list nat)) (preload : option (list (T O * T O))) (shape : Z * Z)
+             (data : list (T O * T O)) (buffer : T O) :=
+    res_map (fun g' => (g', overlay shape g' buffer, rect_psw (overlay shape g' buffer) g')) (held_data rel preload data).
+  (* the Delaunay mapper of the mesh API: the two grids it holds *)
+  Definition del_mesh_api (rel : option (mask * list nat)) (preload : option (list (T O * T O)))
+             (data mesh : list (T O * T O)) : res (list (T O * T O) * list (T O * T O)) :=
+    res_bind (held_data rel preload data) (fun g' => res_map (fun v' => (g', v')) (held_mesh rel g' mesh)).
+End MeshApi.
+
+(* the grids a KRect / KDel case was computed on *)
+Definition held_of (k : C06.case) : option (list qpt * option (list qpt)) :=
+  match k with
+  | KRect _ _ _ grid _ _ _ _ _ _ _ => Some (grid, None)
+  | KDel _ _ _ grid points _ _ _ _ _ _ _ _ => Some (grid, Some points)
+  | _ => None
+  end.
+(* the data the relocation decisions are taken on (the relocation of the mesh uses the border of the HELD data grid) *)
+Definition reloc_source (preload : option (list qpt)) (orig : list qpt) : list qpt :=
+  match preload with Some p => p | None => orig end.
+
+(* the same two steps given the relocator's cached sub_border_slim [sbs] (WHICH sub-pixel of a border pixel is the border
+   sub-pixel is C18's subject; with sub-size 3 the candidates tie exactly in rational arithmetic and by rounding noise in
+   doubles, so the correspondence run takes the relocator's own choice, accepted on its own terms by C18.sub_border_ok) *)
+Definition held_data_with (rel : option (mask * list nat)) (sbs : list nat) (preload : option (list qpt)) (data : list qpt)
+  : res (list qpt) :=
+  match preload, rel with
+  | Some p, _ => Ok p
+  | None, Some _ => @C18.relocated_with QOps sbs data data
+  | None, None => Ok data
+  end.
+Definition held_mesh_with (rel : option (mask * list nat)) (sbs : list nat) (data' mesh : list qpt) : res (list qpt) :=
+  match rel with
+  | Some _ => @C18.relocated_with QOps sbs data' mesh
+  | None => Ok mesh
+  end.
+(* model = implementation for the grids the mapper holds (C18's comparison: untouched coordinates bit for bit, moved
+   ones to 1e-9) *)
+Definition held_agree (rel : option (mask * list nat)) (sbs : list nat) (preload : option (list qpt)) (orig origV : list qpt)
+           (held : list qpt * option (list qpt)) : bool :=
+  match held with
+  | (g, None) => C18.res_pts_agree (reloc_source preload orig) (held_data_with rel sbs preload orig) (Ok g)
+  | (g, Some v) =>
+      C18.pair_agree (reloc_source preload orig) origV
+        (res_bind (held_data_with rel sbs preload orig) (fun g' => res_map (fun v' => (g', v')) (held_mesh_with rel sbs g' origV)))
+        (Ok (g, v))
+  end.
+(* the specification of the held grids: C18's relocation rule (radially inward onto the border, untouched inside),
+   judged by inequalities on squared radii; a preloaded grid is passed on as it is *)
+Definition held_spec (rel : option (mask * list nat)) (sbs : list nat) (preload : option (list qpt)) (orig origV : list qpt)
+           (held : list qpt * option (list qpt)) : bool :=
+  let src := reloc_source preload orig in
+  let '(g, v) := held in
+  match rel with
+  | None => list_eqb C18.pt_eq g src && match v with Some v => list_eqb C18.pt_eq v origV | None => true end
+  | Some (m, ss) =>
+      C18.enough m ss (length src) && C18.sub_border_ok m ss sbs
+      && match preload with
+         | Some p => list_eqb C18.pt_eq g p
+         | None => C18.relocation_ok (C18.border_of orig sbs) orig g
+         end
+      && match v with Some v => C18.relocation_ok (C18.border_of src sbs) origV v | None => true end
+  end.
 
 Definition obs_close (tol vtol : Q) (a b : hobs Q) : bool :=
   match a, b with
@@ -312,6 +406,11 @@ Definition hagree (k : case) : bool :=
       hist_agree (@rect_fns QOps grid shape buffer) (Z.to_nat (fst shape * snd shape)) m subs adapt tol vtol steps
   | KHistDel tol vtol m subs grid points simplices simplex_for indptr indices adapt steps =>
       hist_agree (@del_fns QOps grid points simplices simplex_for indptr indices) (length points) m subs adapt tol vtol steps
+  | KMeshApi rel sbs preload orig origV k =>
+      match held_of k with
+      | Some held => held_agree rel sbs preload orig origV held && agree k
+      | None => false
+      end
   end.
 
 (* ================= specification of a history: every observation, whenever it was made, is accepted by the
@@ -378,14 +477,16 @@ Definition hspec_ok (k : case) : bool :=
       let cg := @geom_of_extent QOps shape grid buffer in
       let P := Z.to_nat (fst shape * snd shape) in
       let S := length grid in
-      let w := tabulate S P (rect_spec_weight cg grid) in
+      let tab := rect_spec_table cg grid P in
+      let w := table_fn tab in
       let listed s := filter (fun p => Qeq_bool (w s p) 1%Q) (seq 0 P) in
       Nat.eqb S (total_sub subs) && Nat.eqb (length adapt) (length subs)
       && forallb (step_spec tol vtol subs P S w listed (adj4 (fst shape) (snd shape)) adapt) steps
   | KHistDel tol vtol m subs grid points simplices simplex_for indptr indices adapt steps =>
       let P := length points in
       let S := length grid in
-      let w := tabulate S P (del_spec_weight points simplices grid) in
+      let tab := del_spec_table points simplices grid in
+      let w := table_fn tab in
       let listed s :=
         let t := nth s simplex_for (-1) in
         if t =? -1 then filter (fun p => Qeq_bool (w s p) 1%Q) (seq 0 P)
@@ -393,6 +494,13 @@ Definition hspec_ok (k : case) : bool :=
       Nat.eqb S (total_sub subs) && Nat.eqb (length adapt) (length subs)
       && oracle_ok points simplices grid simplex_for
       && forallb (step_spec tol vtol subs P S w listed (tri_neighbors simplices) adapt) steps
+  | KMeshApi rel sbs preload orig origV k =>
+      (* the grid the mapper holds is the relocated one, and the mapper's cells / triangles contain the points of the
+         grid it holds *)
+      match held_of k with
+      | Some held => held_spec rel sbs preload orig origV held && spec_ok k
+      | None => false
+      end
   end.
 
 Definition hcheck (k : case) : nat := verdict (hagree k) (hspec_ok k).
